@@ -168,6 +168,36 @@ def split_trace(path, max_lines, out_prefix):
     return chunks
 
 
+def validate_capped(ctx, trace_file, name, timeout=3000):
+    """ctx.validate_trace with a heap cap (several trace JVMs run side by side on a shared machine)"""
+    from vlib import Inconclusive
+    r = ctx.tlc(S, "Trace_Exemplar", "Trace_Exemplar.cfg", workers=1, timeout=timeout, extra_files={"trace.ndjson": trace_file},
+                name=name, must_pass=False, count=False, heap="2g")
+    if r["timed_out"]:
+        raise Inconclusive("trace validation timed out: " + r["out"])
+    viols, accepted = [], None
+    for p in r["prints"]:
+        if isinstance(p, str) and p.startswith("VIOL "):
+            try:
+                viols.append(json.loads(p[5:]))
+            except Exception:
+                viols.append({"raw": p})
+        elif isinstance(p, str) and p.startswith("ACCEPTED"):
+            accepted = int(p.split()[1])
+    if r["rc"] != 0 or r["error"] or r["violated"]:
+        raise Inconclusive("trace validation TLC error (%s/%s): %s" % (r["error"], r["violated"], r["out"]))
+    nlines = sum(1 for _ in open(trace_file))
+    if accepted != nlines:
+        raise Inconclusive("trace spec consumed %s of %d lines (spec/harness drift, not a verdict): %s" % (accepted, nlines, r["out"]))
+    seen, out = set(), []
+    for v in viols:
+        k = json.dumps(v, sort_keys=True)
+        if k not in seen:
+            seen.add(k)
+            out.append(v)
+    return out, accepted
+
+
 def run(ctx):
     thorough = ctx.tier == "thorough"
     binp = ctx.go_build("x01")
@@ -255,7 +285,7 @@ def run(ctx):
 
     def validate(direction, chunk, idx):
         name = "trace-%s-%d" % (direction, idx)
-        viols, accepted = ctx.validate_trace(S, "Trace_Exemplar", "Trace_Exemplar.cfg", chunk, timeout=3000, name=name)
+        viols, accepted = validate_capped(ctx, chunk, name)
         try:
             os.remove(os.path.join(ctx.work, "tlc-" + name, "trace.ndjson"))
         except OSError:
@@ -305,7 +335,7 @@ def run(ctx):
                         line = json.dumps(rec, separators=(",", ":")) + "\n"
                         break
             out.write(line)
-    sv, _ = ctx.validate_trace(S, "Trace_Exemplar", "Trace_Exemplar.cfg", st, timeout=600, name="trace-selftest")
+    sv, _ = validate_capped(ctx, st, "trace-selftest", timeout=600)
     ctx.extra["selftest_corrupted_value_rejected"] = bool(corrupted and any(v.get("clause") in ("exemplar-value", "one-measurement-exported-twice",
                                                                                                "exemplar-matches-no-measurement") for v in sv))
     if not ctx.extra["selftest_corrupted_value_rejected"]:
